@@ -23,9 +23,15 @@ output exactly once, and nothing else.  Here that hypothesis is *proved* for the
   (`compile_correct_wf`) — contains exactly one event produced by a node that calls (a cast of) the factory input: a call
   event with one positional argument (the node's, which is the solved shape) and exactly the keyword names of the model.
 
-What is *not* proved here: that the function term of that event evaluates to the factory object and that no other event's
-function term does (the event is identified by the node that produced it, `SStmt.src`, not by the value of its function term);
-graphs with nested sub-graphs (none among the captured graphs; `vmap`-style adapters cannot run here).
+* `factory_call_value_compiled` (value level): under two further decidable premises (`rootStable fg`: the fuel of
+  `Factory.root` suffices; `castsPlain g fg t`: a `Cast` of a tracer denoting input `t` yields a tracer), the event trace of the
+  emitted program contains exactly one call event whose *function term is the object passed as input `t`* (`inAtom t`), with one
+  positional argument and the model's keyword names; no other call event calls that object.  Proof: an invariant on the memo of
+  the reference evaluation (`Proofs/ExecSem.lean`: a value is a tracked atom iff its tracer is a cast of `t`).
+
+What is *not* proved here: that `conv` leaves the literal shape tuple unchanged (the positional argument is known by count in
+the event and by value on the node); graphs with nested sub-graphs (none among the captured graphs; `vmap`-style adapters
+cannot run here).
 -/
 namespace Einx.Props.C13
 open Einx.Factory Einx.Compile Einx.Exec
